@@ -227,7 +227,7 @@ Section ReaderFacts.
   Lemma fold_inv : forall evs s, rinv s -> rinv (fold_left (rstep obf D h) evs s).
   Proof. induction evs; intros; cbn; auto. apply IHevs. apply rstep_inv; auto. Qed.
 
-  Theorem liveness_partial : forall evs,
+  Theorem liveness : forall evs,
     rrunning (rrun obf D h evs) = false -> rclosed (rrun obf D h evs) = true.
   Proof. intros evs. apply (fold_inv evs rinit). unfold rinv, rinit. cbn. discriminate. Qed.
 
@@ -262,16 +262,22 @@ Section ReaderFacts.
   Qed.
 End ReaderFacts.
 
-(* the liveness statement without the hypothesis on the handlers is false: a handler that raises
-   CancelledError on the second WishlistInterval (id 104) ends the reader while the connection stays open *)
+(* The hypothesis is necessary: a machine instance whose handler raises CancelledError on the second
+   message with id 104 (the behaviour of SearchManager._on_wish_list_interval before the F07 repair)
+   ends the reader while the connection stays open. *)
 Definition id_of (bs : bytes) : option N := Some (nth 4 bs 0).
-Definition h_wishlist (dl : list N) (m : N) : hout :=
+Definition h_cancel_second (dl : list N) (m : N) : hout :=
   if andb (m =? 104) (existsb (fun x => x =? 104) dl) then HCancels else HOk.
 Definition wish_frame : bytes := [8; 0; 0; 0; 104; 0; 0; 0; 208; 2; 0; 0].
 
-Theorem liveness_refuted : exists (h : list N -> N -> hout) (evs : list ev),
-  let s := rrun false id_of h evs in rrunning s = false /\ rclosed s = false /\ rdelivered s = [104; 104].
-Proof. exists h_wishlist, [Chunk wish_frame; Chunk (wish_frame ++ wish_frame)]. vm_compute. auto. Qed.
+Lemma hypothesis_needed :
+  ~ handlers_never_cancel h_cancel_second /\
+  (let s := rrun false id_of h_cancel_second [Chunk wish_frame; Chunk (wish_frame ++ wish_frame)] in
+   rrunning s = false /\ rclosed s = false).
+Proof.
+  split; [|vm_compute; auto].
+  intros H. apply (H [104] 104). reflexivity.
+Qed.
 
 Theorem bad_first_frame : forall reg id o,
   o = FUndecodable \/ o = FNotInit \/ o = FPierceUnknown \/ o = FEofOrError ->
